@@ -141,23 +141,47 @@ func TestPropHealthyConn(t *testing.T) {
 		if !ok {
 			t.Fatalf("healthy connection: a line handed after %d others never arrived within 30s (iobuf=%d connbuf=%d flush=%s pickle=%v; slow_conn=%d conn_down=%d)", n, iobuf, connbuf, flush, pickle, x.SlowConn(), x.ConnDown())
 		}
-		x.D.Flush()
-		time.Sleep(time.Millisecond)
-		stream := e.All()
+		// Several markers may have been handed before one of them showed up; the later ones can still be in flight.
+		// Everything is settled once #received + #counted-as-dropped reaches #handed: wait for that (bounded), then judge.
 		nHanded := len(handed) + len(sent)
-		// what arrived, as records in order
-		var got []string
-		if pickle {
-			_, recs, err := parsePickleStream(stream)
-			if err != nil {
-				t.Fatalf("pickle stream is not a sequence of length-prefixed pickles: %v (iobuf=%d connbuf=%d)", err, iobuf, connbuf)
+		var gotF []string
+		var missing int
+		evaluate := func() string {
+			x.D.Flush()
+			stream := e.All()
+			var got []string
+			if pickle {
+				_, recs, err := parsePickleStream(stream)
+				if err != nil {
+					return fmt.Sprintf("pickle stream is not a sequence of length-prefixed pickles: %v", err)
+				}
+				got = recs
+			} else {
+				if len(stream) > 0 && stream[len(stream)-1] != '\n' {
+					return fmt.Sprintf("plain stream does not end with a newline after a flush: ...%q", stream[max(0, len(stream)-60):])
+				}
+				got = strings.Split(strings.TrimSuffix(string(stream), "\n"), "\n")
 			}
-			got = recs
-		} else {
-			if len(stream) > 0 && stream[len(stream)-1] != '\n' {
-				t.Fatalf("plain stream does not end with a newline after a flush: ...%q", stream[max(0, len(stream)-60):])
+			gotF = gotF[:0]
+			for _, g := range got {
+				if strings.HasPrefix(g, "verif.warm") {
+					continue
+				}
+				gotF = append(gotF, g)
 			}
-			got = strings.Split(strings.TrimSuffix(string(stream), "\n"), "\n")
+			missing = nHanded - len(gotF)
+			if int64(missing) != x.SlowConn() {
+				return fmt.Sprintf("%d lines handed, %d received: %d absent, but the slow-connection drop counter moved by %d (conn_down=%d bad_pickle=%d)", nHanded, len(gotF), missing, x.SlowConn(), x.ConnDown(), x.BadPickle())
+			}
+			return ""
+		}
+		problem := evaluate()
+		for dl := time.Now().Add(10 * time.Second); problem != "" && time.Now().Before(dl); {
+			time.Sleep(2 * time.Millisecond)
+			problem = evaluate()
+		}
+		if problem != "" {
+			t.Fatalf("%s; iobuf=%d connbuf=%d flush=%s pickle=%v", problem, iobuf, connbuf, flush, pickle)
 		}
 		// expected records in hand-off order (markers included), warm-up traffic ignored
 		var want []string
@@ -178,13 +202,6 @@ func TestPropHealthyConn(t *testing.T) {
 		for _, s := range sent {
 			want = append(want, rend(string(s)))
 		}
-		var gotF []string
-		for _, g := range got {
-			if strings.HasPrefix(g, "verif.warm") {
-				continue
-			}
-			gotF = append(gotF, g)
-		}
 		// subsequence check: order kept, nothing duplicated, torn, merged or invented
 		wi := 0
 		for gi, g := range gotF {
@@ -195,10 +212,6 @@ func TestPropHealthyConn(t *testing.T) {
 				t.Fatalf("record %d of the received stream, %q, is not the next of the handed-off lines (torn, merged, duplicated, reordered or invented); iobuf=%d connbuf=%d flush=%s pickle=%v\nreceived around: %q", gi, clip(g), iobuf, connbuf, flush, pickle, clipAll(gotF[max(0, gi-2):min(len(gotF), gi+3)]))
 			}
 			wi++
-		}
-		missing := nHanded - len(gotF)
-		if int64(missing) != x.SlowConn() {
-			t.Fatalf("%d lines handed, %d received: %d absent, but the slow-connection drop counter moved by %d (conn_down=%d bad_pickle=%d); iobuf=%d connbuf=%d flush=%s pickle=%v", nHanded, len(gotF), missing, x.SlowConn(), x.ConnDown(), x.BadPickle(), iobuf, connbuf, flush, pickle)
 		}
 		nt := longer && shorter && (paused || time.Since(t0) > flush)
 		rec.Case(fmt.Sprintf("iobuf=%d connbuf=%d flush=%s pickle=%v n=%d lens=%v", iobuf, connbuf, flush, pickle, n, lens(handed)), nt,
